@@ -36,14 +36,36 @@ def _replay(ad: Adapter, cfg: Config, rec: Dict[str, Any], env: Any, **extra: An
     return r
 
 
-def run(ctx: Ctx, pid: str, extended: bool = False) -> None:
-    rng = np.random.default_rng(ctx.seed)
-    drv = ctx.get_driver()
+def _run_adapters(pid: str, tier: str, seed: int, extended: bool, names: List[str]) -> Dict[str, Any]:
+    """worker: run the sweep of `pid` for the adapters `names` in this process; returns a picklable fragment of a Ctx"""
+    import os
+
+    os.environ["VERIF_ONLY_ENVS"] = ",".join(names)
+    envlib.ADAPTERS.clear()
+    ctx = Ctx(pid, tier, seed)
+    _run_local(ctx, pid, extended, names)
+    if ctx.driver:
+        ctx.driver.close()
+    return {"failures": [(f.env, f.kind, f.what, common_jsonable(f.replay), f.sig) for f in ctx.failures],
+            "disagreements": common_jsonable(ctx.disagreements), "stats": ctx.stats, "samples": common_jsonable(ctx.samples),
+            "evaluations": ctx.evaluations, "nontrivial": len(ctx.nontrivial), "names": names}
+
+
+def common_jsonable(x: Any) -> Any:
+    from common import _jsonable
+
+    return _jsonable(x)
+
+
+def _run_local(ctx: Ctx, pid: str, extended: bool, names: Optional[List[str]] = None) -> None:
     mult = 3 if extended else 1
+    drv = ctx.get_driver()
     per_env: Dict[str, Any] = {}
-    ads = adapters_for(pid)
-    ctx.coverage_extra["envs_with_model"] = sorted(a.name for a in ads)
-    for ad in ads:
+    for ad in adapters_for(pid):
+        if names is not None and ad.name not in names:
+            continue
+        # a separate stream per adapter: results do not depend on which other adapters run, or in which process
+        rng = np.random.default_rng([ctx.seed, sum(map(ord, ad.name))])
         t0 = time.time()
         n_before = ctx.evaluations
         for cfg in ad.configs(ctx.tier):
@@ -54,7 +76,53 @@ def run(ctx: Ctx, pid: str, extended: bool = False) -> None:
             fn = globals()[f"_{pid.lower()}"]
             fn(ctx, ad, cfg, env, runner, rng, drv, mult)
         per_env[ad.name] = {"evaluations": ctx.evaluations - n_before, "wall_s": round(time.time() - t0, 1)}
-    ctx.stats["per_env"] = per_env
+    ctx.stats.setdefault("per_env", {}).update(per_env)
+
+
+def run(ctx: Ctx, pid: str, extended: bool = False) -> None:
+    """run the sweep of property `pid` over all adapters that serve it, in parallel worker processes"""
+    import os
+
+    ads = adapters_for(pid)
+    ctx.coverage_extra["envs_with_model"] = sorted(a.name for a in ads)
+    workers = int(os.environ.get("VERIF_WORKERS", "8"))
+    names = [a.name for a in ads]
+    if workers <= 1 or len(names) <= 2:
+        _run_local(ctx, pid, extended)
+        return
+    import concurrent.futures as cf
+    import multiprocessing as mp
+
+    # longest-first round robin so that the groups are balanced
+    weight = {"bin_pack": 9, "robot_warehouse": 6, "pac_man": 5, "connector": 5, "lbf": 5, "mmst": 5, "multi_cvrp": 4, "sudoku": 4,
+              "job_shop": 4, "rubiks_cube": 5, "flat_pack": 4, "snake": 4, "tetris": 3}
+    order = sorted(names, key=lambda n: -weight.get(n, 2))
+    groups: List[List[str]] = [[] for _ in range(min(workers, len(order)))]
+    load = [0] * len(groups)
+    for n in order:
+        i = load.index(min(load))
+        groups[i].append(n)
+        load[i] += weight.get(n, 2)
+    # drop the parent's driver before forking helpers
+    with cf.ProcessPoolExecutor(max_workers=len(groups), mp_context=mp.get_context("spawn")) as ex:
+        futs = [ex.submit(_run_adapters, pid, ctx.tier, ctx.seed, extended, g) for g in groups if g]
+        for fu in futs:
+            r = fu.result()
+            for (env, kind, what, replay, sig) in r["failures"]:
+                ctx.fail(env, kind, what, replay, {k: v for k, v in sig.items() if k not in ("env", "kind")})
+            for d in r["disagreements"]:
+                ctx.disagree(d["env"], d["what"], d["case"])
+            for k, v in r["stats"].items():
+                if k == "per_env":
+                    ctx.stats.setdefault("per_env", {}).update(v)
+                elif isinstance(v, (int, float)):
+                    ctx.stats[k] = ctx.stats.get(k, 0) + v
+                else:
+                    ctx.stats[k] = v
+            for smp in r["samples"]:
+                ctx.sample(smp, cap=12)
+            ctx.evaluations += r["evaluations"]
+            ctx.nontrivial.update((tuple(r["names"]), i) for i in range(r["nontrivial"]))
 
 
 # --------------------------------------------------------------------------------------
